@@ -18,6 +18,7 @@ class Emitter:
         self.obls = []        # obligations
         self.fn_ranges = []   # (start, end, fn name, src file, src line)
         self.vacuity = []     # vacuity twins (must fail)
+        self.twins = []
 
     @property
     def lineno(self):
@@ -299,7 +300,11 @@ def build_unit(unit, outdir):
         specs.update(parse_spec(os.path.join(VERIF, 'contracts', sp)))
     used_specs = set()
     em.emit('verus! {')
-    for it in unit['items']:
+    all_items = []
+    for inc in unit.get('include', []):
+        all_items += json.load(open(os.path.join(VERIF, 'units', inc)))['items']
+    all_items += unit['items']
+    for it in all_items:
         path = resolve_src(it['src'])
         text, toks = load(path)
         kind, name = it['kind'], it['name']
@@ -311,6 +316,11 @@ def build_unit(unit, outdir):
         item_toks = strip_trivia(item_toks)
         item_toks, froms = rw.strip_attrs(item_toks)
         item_toks = rw.basic(item_toks, in_const=(kind == 'const'))
+        if it.get('rename'):
+            for tk in item_toks:
+                if tk.kind == 'ident' and tk.text in it['rename']:
+                    tk.text = it['rename'][tk.text]
+            name = it['rename'].get(name, name)
         for (pat, rep) in it.get('patches', []):
             txt = text_of(item_toks)
             if pat not in txt:
@@ -352,6 +362,13 @@ def build_unit(unit, outdir):
                 ctxt = re.sub(r'&\s*str\b', "&'static str", text_of(item_toks))
                 if not ctxt.lstrip().startswith('pub'):
                     ctxt = 'pub ' + ctxt
+                m9 = re.match(r'^\s*pub\s+const\s+(\w+)\s*:\s*([\w:<>]+)\s*=\s*(Uint128::new|Decimal::percent)\(\s*([0-9_a-z]+)\s*\)\s*;\s*$', ctxt, re.S)
+                if m9:
+                    nm, ty, ctor, lit = m9.groups()
+                    ens = ('%s == (Uint128 { v: %s })' % (nm, lit)) if ctor == 'Uint128::new' else ('%s@ == (%s as nat) * 10_000_000_000_000_000' % (nm, lit))
+                    new = 'pub exec const %s: %s ensures %s { %s(%s) }' % (nm, ty, ens, ctor, lit)
+                    rw.rec('R9', ctxt, new)
+                    ctxt = new
                 item_toks = [T('raw', ctxt, toks[b].start)]
             em.emit_tokens(item_toks, path, text)
         em.fn_ranges.append((start_line, em.lineno - 1, label, it['src'], src_line, kind))
@@ -365,6 +382,17 @@ def build_unit(unit, outdir):
         src = open(p).read()
         em.emit(src)
         collect_lemma_obligations(em, unit['name'], sp, src, base)
+    if em.twins:
+        em.emit('// ---------------- vacuity twins (each MUST fail: `ensures false` behind the same requires and body)')
+        em.emit('mod vacuity_twins {')
+        em.emit('use super::*;')
+        em.emit('verus! {')
+        for tw in em.twins:
+            vstart = em.lineno
+            em.emit(tw['text'])
+            em.vacuity.append({'fn': tw['fn'], 'twin': tw['twin'], 'gen_start': vstart, 'gen_end': em.lineno - 1})
+        em.emit('} // verus!')
+        em.emit('}')
     em.emit('fn main() {}')
     missing = [k for k in specs if k not in used_specs]
     if missing:
@@ -496,24 +524,30 @@ def emit_fn(em, unit, it, toks, fspec, path, src_text, rw):
             if ob.get('gen_start') is None:
                 raise ExtractError('could not place clause %s' % ob['name'])
     # ---- vacuity twin: same signature, same requires, same body, `ensures false`; it MUST fail.
+    # Twins live in their own module (own Z3 context, small rlimit) so they do not slow the real proofs.
     if fspec and not it.get('no_vacuity_twin'):
-        vstart = em.lineno
+        tw = []
+        if it.get('impl_of'):
+            ity, _, itr = it['impl_of'].partition(':')
+            tw.append('impl %s%s {' % ((itr + ' for ') if itr else '', ity))
+        tw.append('#[verifier::rlimit(1)]')
         twin_head = re.sub(r'\bfn\s+' + re.escape(name) + r'\b', 'fn __vac_' + name, head_txt, count=1)
-        em.emit(twin_head)
         if rt.startswith('->'):
-            em.lines[-1] += ' -> (%s: %s)' % (retname, rt[2:].strip())
+            twin_head += ' -> (%s: %s)' % (retname, rt[2:].strip())
+        tw.append(twin_head)
         if where:
-            em.emit('    ' + where)
+            tw.append('    ' + where)
         if fspec.requires:
-            em.emit('    requires')
+            tw.append('    requires')
             for (label, tags, txt) in fspec.requires:
-                em.emit('        ' + ' '.join(x.strip() for x in txt.rstrip().rstrip(',').split('\n')) + ',')
-        em.emit('    ensures false,')
+                tw.append('        ' + ' '.join(x.strip() for x in txt.rstrip().rstrip(',').split('\n')) + ',')
+        tw.append('    ensures false,')
         if fspec.opts.get('decreases'):
-            em.emit('    decreases ' + fspec.opts['decreases'])
-        em.emit('{')
-        for ln in fspec.body_start:
-            em.emit(ln)
-        em.emit(text_of(body))
-        em.emit('}')
-        em.vacuity.append({'fn': lname, 'twin': '__vac_' + name, 'gen_start': vstart, 'gen_end': em.lineno - 1})
+            tw.append('    decreases ' + fspec.opts['decreases'])
+        tw.append('{')
+        tw += list(fspec.body_start)
+        tw.append(text_of(body))
+        tw.append('}')
+        if it.get('impl_of'):
+            tw.append('}')
+        em.twins.append({'fn': lname, 'twin': '__vac_' + name, 'text': '\n'.join(tw)})
